@@ -552,6 +552,62 @@ fn main() {
 
     let jobs: Vec<Value> = case["jobs"].as_array().cloned().unwrap_or_default();
     let rc = build_route(&jobs);
+
+    // route-level gates: shift/time-window intersection (transport) and the tour size limit
+    if let Some(rj) = case.get("route_job").filter(|t| !t.is_null()) {
+        use vrp_core::construction::features::create_activity_limit_feature;
+        use vrp_core::models::problem::{Multi, Place as JPlace};
+        use vrp_core::models::common::TimeSpan;
+        let mut rc = RouteContext::new(actor.clone());
+        let multi_in_tour = case.get("multi_in_tour").and_then(|v| v.as_bool()).unwrap_or(false);
+        if multi_in_tour {
+            // the first two activities of the tour are the two tasks of ONE multi job
+            let subs: Vec<Arc<Single>> = jobs.iter().take(2).map(|j| job_activity(j).job.unwrap()).collect();
+            let multi = Multi::new_shared(subs, Dimensions::default());
+            for (j, single) in jobs.iter().take(2).zip(multi.jobs.iter()) {
+                let mut a = job_activity(j);
+                a.job = Some(single.clone());
+                rc.route_mut().tour.insert_last(a);
+            }
+            for j in jobs.iter().skip(2) {
+                rc.route_mut().tour.insert_last(job_activity(j));
+            }
+        } else {
+            for j in jobs.iter() {
+                rc.route_mut().tour.insert_last(job_activity(j));
+            }
+        }
+        let times: Vec<TimeSpan> = rj["tws"]
+            .as_array()
+            .unwrap()
+            .iter()
+            .map(|tw| TimeSpan::Window(TimeWindow::new(num(&tw[0]), num(&tw[1]))))
+            .collect();
+        let per_place = rj.get("windows_per_place").and_then(|v| v.as_u64()).unwrap_or(times.len() as u64).max(1) as usize;
+        let mk_single = || {
+            Arc::new(Single {
+                places: times
+                    .chunks(per_place)
+                    .enumerate()
+                    .map(|(i, tws)| JPlace { location: Some(5 + i), duration: 0., times: tws.to_vec() })
+                    .collect(),
+                dimens: Default::default(),
+            })
+        };
+        let single = Job::Single(mk_single());
+        let multi = Job::Multi(Multi::new_shared(vec![mk_single(), mk_single()], Dimensions::default()));
+        let limit = case.get("size_limit").and_then(|v| v.as_u64()).map(|v| v as usize);
+        let f_size = create_activity_limit_feature("size", ViolationCode(6), Arc::new(move |_| limit)).unwrap();
+        let out = json!({
+            "evaluate_job_transport": violation(f_cost.constraint.as_ref().unwrap().evaluate(&MoveContext::route(&solution_ctx, &rc, &single))),
+            "evaluate_size_single": violation(f_size.constraint.as_ref().unwrap().evaluate(&MoveContext::route(&solution_ctx, &rc, &single))),
+            "evaluate_size_multi": violation(f_size.constraint.as_ref().unwrap().evaluate(&MoveContext::route(&solution_ctx, &rc, &multi))),
+            "tour_job_count": rc.route().tour.job_count(),
+            "tour_job_activity_count": rc.route().tour.job_activity_count(),
+        });
+        println!("{}", serde_json::to_string(&out).unwrap());
+        return;
+    }
     let mut out = json!({"pre": observe(&rc)});
     // stale flag through deep_copy: `RouteContext` is stale after the mutations above; accept_route_state resets the flag
     {
@@ -587,6 +643,60 @@ fn main() {
             transport: transport.clone(),
             extras: Arc::new(Extras::default()),
         });
+        if case["kind"] == "simple_objectives" {
+            // additive objectives: quoted estimate vs. change of the fitness when the job moves from "unassigned" into the route
+            use vrp_core::construction::features::{
+                create_maximize_total_job_value_feature, create_maximize_tours_feature, create_minimize_tours_feature,
+                JobReadValueFn, MinimizeUnassignedBuilder,
+            };
+            let (w, v) = (num(&case["weight"]), num(&case["value"]));
+            let target = json!({"loc": 5, "dur": 0.0, "tws": 0.0, "twe": null});
+            let tgt = job_activity(&target);
+            let job = Job::Single(tgt.job.clone().unwrap());
+            let features = vec![
+                ("minimize_tours", create_minimize_tours_feature("f").unwrap()),
+                ("maximize_tours", create_maximize_tours_feature("f").unwrap()),
+                ("minimize_unassigned", MinimizeUnassignedBuilder::new("f").set_job_estimator(move |_, _| w).build().unwrap()),
+                (
+                    "maximize_value",
+                    create_maximize_total_job_value_feature(
+                        "f",
+                        JobReadValueFn::Left(Arc::new(move |_| v)),
+                        Arc::new(|job, _| job),
+                        ViolationCode(9),
+                    )
+                    .unwrap(),
+                ),
+            ];
+            let env = Arc::new(vrp_core::rosomaxa::utils::Environment::default());
+            let mut before = InsertionContext::new_empty(problem.clone(), env.clone());
+            if !jobs.is_empty() {
+                before.solution.routes.push(rc.deep_copy());
+            }
+            before.solution.unassigned.insert(job.clone(), vrp_core::construction::heuristics::UnassignmentInfo::Unknown);
+            let mut after = InsertionContext::new_empty(problem.clone(), env);
+            let mut post_jobs = jobs.clone();
+            post_jobs.push(target.clone());
+            after.solution.routes.push(build_route(&post_jobs));
+            let prev = rc.route().tour.get(0).unwrap();
+            let next = rc.route().tour.get(1);
+            let activity_ctx = ActivityContext { index: 0, prev, target: &tgt, next };
+            let mut res = serde_json::Map::new();
+            for (name, f) in features.iter() {
+                let o = f.objective.as_ref().unwrap();
+                res.insert(
+                    name.to_string(),
+                    json!({
+                        "estimate_route": o.estimate(&MoveContext::route(&solution_ctx, &rc, &job)),
+                        "estimate_activity": o.estimate(&MoveContext::activity(&solution_ctx, &rc, &activity_ctx)),
+                        "fitness_before": o.fitness(&before),
+                        "fitness_after": o.fitness(&after),
+                    }),
+                );
+            }
+            println!("{}", serde_json::to_string(&Value::Object(res)).unwrap());
+            return;
+        }
         let mut ictx = InsertionContext::new_empty(problem, Arc::new(vrp_core::rosomaxa::utils::Environment::default()));
         ictx.solution.routes.push(priced);
         out["total_cost"] = json!(ictx.get_total_cost());
